@@ -82,6 +82,10 @@ partial def parseExpr (cs : List Char) : Option (Expr V × List Char) :=
   else if let some r := stripPrefix "cache(" cs then do
     let (e, r) ← parseExpr r
     pure (.cache e, ← expect ')' r)
+  else if let some r := stripPrefix "units(" cs then do
+    -- `sources::unit_system::UnitSystem`: items wrapped in a unit and unwrapped again
+    let (e, r) ← parseExpr r
+    pure (.rt e, ← expect ')' r)
   else if let some r := stripPrefix "rt(" cs then do
     let (e, r) ← parseExpr r
     pure (.rt e, ← expect ')' r)
@@ -169,6 +173,7 @@ def mkSink (kind : String) : Option (Sk V) :=
   | "sink_meanvar" => some (.meanVar none)
   | "sink_stats" => some (.statistics none none none)
   | "sink_collect" => some (.collect [])
+  | "sink_unit_sum" => some (.unitSum 0)
   | _ => none
 
 def renderFin (o : Option (List V)) : String :=
@@ -178,6 +183,7 @@ def renderFin (o : Option (List V)) : String :=
 
 /-- C11: the batch statistic of everything received -/
 def specFinalize (kind : String) (h : List V) : Option (List V) :=
+  if kind == "sink_unit_sum" then some [Spec.sum h] else
   if h.isEmpty then (if kind == "sink_collect" then some [] else none) else
   let mn := (Spec.extremum ltB h).getD V.err
   let mx := (Spec.extremum gtB h).getD V.err
